@@ -146,8 +146,13 @@ def gen_case(tape, tier):
                 ax = tape.choose(len(ext), "axis")
                 k[ax] = ext[ax] + tape.choose(2, "over") if tape.coin(0.5, "hi") else -ext[ax] - 1 - tape.choose(2, "under")
             else:
-                k = k + [0]
-                if len(ext) > 1 and tape.coin(0.4, "bare"):
+                if len(full) > len(ext) and tape.coin(0.4, "getitem-style"):
+                    # a __getitem__-style key of full rank (slice(None) at the internal positions) is not a dump key
+                    it = iter(k)
+                    k = [next(it) if m_ else {"slice": [None, None, None]} for m_ in mask]
+                else:
+                    k = k + [0]
+                if len(ext) > 1 and isinstance(k, list) and len(k) == len(ext) + 1 and tape.coin(0.4, "bare"):
                     k = {"bare": k[0]}
             nv += 1
             ops.append({"op": "bad_dump", "key": k, "value": nv})
